@@ -390,7 +390,8 @@ async fn net_cmd(
             }
         }
         "shutdown" => match net.shutdown().await {
-            Ok(()) => format!("ok t={}", el()),
+            // what the network reports at the very moment a shutdown call returns successfully
+            Ok(()) => format!("ok closed={} peers={} t={}", net.is_closed() as u8, net.peers().len(), el()),
             Err(_) => format!("err t={}", el()),
         },
         other => format!("bad-cmd {other}"),
